@@ -2,7 +2,7 @@
 # runs every registered check (quick by default) and prints one summary line per property
 cd "$(dirname "$0")/.." || exit 2
 tier="${1:-quick}"
-python3 - "$tier" <<'PY' > /dev/shm/runall.list
+python3 - "$tier" <<'PY' > /dev/shm/runall.$$.list
 import json,sys
 m=json.load(open('MANIFEST.json'))
 for c in m['checks']:
@@ -14,4 +14,5 @@ while IFS=$'\t' read -r id cmd; do
   e=$(date +%s)
   echo "$id rc=$rc $((e-s))s viol=$(echo "$out" | grep -c '^VIOLATION') known=$(echo "$out" | grep -c '^KNOWN-FINDING') $(echo "$out" | grep -o 'exhaustive=[a-z]*' | tr '\n' ' ')"
   [ $rc -ne 0 ] && echo "$out" | grep -A1 '^VIOLATION' | head -6
-done < /dev/shm/runall.list
+done < /dev/shm/runall.$$.list
+rm -f /dev/shm/runall.$$.list
